@@ -49,6 +49,7 @@ kvars == <<sh, mode, buf, pc, last, memo, hv, hvi, n, ctab>>
 kview == <<sh, hvi, n>>     \* the ghost table is a function of (sh, hvi)
 
 Big == 1000000
+Max2(x, y) == IF x > y THEN x ELSE y
 
 ----------------------------------------------------------------------------
 (* Walks: footprint accumulation *)
@@ -153,10 +154,11 @@ DataAt(b, li, inst, d) ==
 
 ----------------------------------------------------------------------------
 (* Operations *)
-Mk(cls, kind, li, ip, name, args, val, w, pre, grow) ==
+\* recv: start of the view (or the cursor position) the final call is made on
+Mk(cls, kind, li, ip, name, args, val, w, pre, grow, recv) ==
   [cls |-> cls, kind |-> kind, level |-> LV[li].path, ip |-> ip, name |-> name,
    a |-> args, v |-> val, tr |-> w.tr, rq |-> w.rq, pre |-> pre, grow |-> grow,
-   far |-> w.far, dead |-> w.dead]
+   far |-> w.far, dead |-> w.dead, recv |-> recv]
 
 PatBytes(k) == [j \in 1 .. k |-> (90 + 13 * j) % 256]
 Elem == 90
@@ -169,8 +171,8 @@ LeafOps(b, li, ip, inst) ==
            at == inst.a + lf.off
            sz == lf.w * lf.n
            w == Acc(b, inst.w, at, sz, inst.base, at, at + sz)
-       IN <<Mk("leaf-get", "leaf_get", li, ip, lf.path, <<>>, <<>>, w, TRUE, FALSE),
-            Mk("leaf-set", "leaf_set", li, ip, lf.path, <<>>, PatBytes(sz), w, TRUE, FALSE)>>])
+       IN <<Mk("leaf-get", "leaf_get", li, ip, lf.path, <<>>, <<>>, w, TRUE, FALSE, inst.base),
+            Mk("leaf-set", "leaf_set", li, ip, lf.path, <<>>, PatBytes(sz), w, TRUE, FALSE, inst.base)>>])
 
 FieldViewOps(b, li, ip, inst) ==
   LET fs == LFields[li]
@@ -178,8 +180,8 @@ FieldViewOps(b, li, ip, inst) ==
        IF fs[k].kind # "view" THEN <<>>
        ELSE LET at == inst.a + fs[k].off
                 w == ReqOnly(b, inst.w, at, at + fs[k].size)
-            IN <<Mk("view-obtain", "fview", li, ip, <<fs[k].name>>, <<>>, <<>>, w, TRUE, FALSE),
-                 Mk("size-bytes", "fview_size", li, ip, <<fs[k].name>>, <<>>, <<>>, w, TRUE, FALSE)>>])
+            IN <<Mk("view-obtain", "fview", li, ip, <<fs[k].name>>, <<>>, <<>>, w, TRUE, FALSE, inst.base),
+                 Mk("size-bytes", "fview_size", li, ip, <<fs[k].name>>, <<>>, <<>>, w, TRUE, FALSE, inst.base)>>])
 
 \* index (0-based) of the first zero element, N if none; of the last non-zero, -1 if none
 FirstNul(b, at, N) == IF \E i \in 0 .. N - 1 : b[at + i + 1] = 0
@@ -197,14 +199,14 @@ ArrayOps(b, li, ip, inst) ==
            N == lf.n
            A(lo, len) == Acc(b, inst.w, at + lo, len, inst.base, at, at + N)
            inreg == at + N <= Len(b) /\ ~inst.w.dead
-           O(kind, args, val, w) == Mk("array", kind, li, ip, lf.path, args, val, w, TRUE, FALSE)
+           O(kind, args, val, w) == Mk("array", kind, li, ip, lf.path, args, val, w, TRUE, FALSE, at)
        IN IF lf.kind # "array" \/ lf.w # 1 \/ N = 0 THEN <<>>
           ELSE <<O("arr_at", <<0>>, <<>>, A(0, 1)),
                  O("arr_at", <<N - 1>>, <<>>, A(N - 1, 1)),
                  O("arr_front", <<>>, <<>>, A(0, 1)),
                  O("arr_back", <<>>, <<>>, A(N - 1, 1)),
                  O("arr_data", <<>>, <<>>, A(0, 0)),
-                 O("arr_size_bytes", <<>>, <<>>, inst.w),
+                 O("arr_size_bytes", <<>>, <<>>, A(0, 0)),
                  O("arr_fill", <<Elem>>, <<>>, A(0, N)),
                  O("arr_assign_n", <<0, Elem>>, <<>>, A(0, 0)),
                  O("arr_assign_n", <<1, Elem>>, <<>>, A(0, 1)),
@@ -226,15 +228,15 @@ LevelOps(b, li, ip, inst) ==
   LET bl == LevelBLW(b, inst.w, li, inst)
       e == WLevelEnd(b, bl.w, li, inst.a, bl.v)
       \* a message without groups and data: size = header + blockLength
-  IN <<Mk("view-obtain", "lv_addr", li, ip, <<>>, <<>>, <<>>, inst.w, TRUE, FALSE),
-       Mk("size-bytes", "lv_size", li, ip, <<>>, <<>>, <<>>, e.w, TRUE, FALSE)>>
+  IN <<Mk("view-obtain", "lv_addr", li, ip, <<>>, <<>>, <<>>, inst.w, TRUE, FALSE, inst.base),
+       Mk("size-bytes", "lv_size", li, ip, <<>>, <<>>, <<>>, e.w, TRUE, FALSE, inst.base)>>
 
 HdrMember(b, w, name) ==
   IF HasMember(Header, name)
   THEN Acc(b, w, V0 + CompMemberOff(Header, name), CompMemberW(Header, name), V0, V0, V0 + HSize)
   ELSE w
 MessageOps(b) ==
-  LET O(kind, w) == Mk("header", kind, 1, <<>>, <<>>, <<>>, <<>>, w, TRUE, FALSE)
+  LET O(kind, w) == Mk("header", kind, 1, <<>>, <<>>, <<>>, <<>>, w, TRUE, FALSE, V0)
   IN <<O("m_hdr", ReqOnly(b, W0, V0, V0 + HSize)),
        O("m_hdr_bl", RootBL(b, W0).w),
        O("m_fill_hdr", HdrMember(b, HdrMember(b, HdrMember(b, HdrMember(b, W0, "schemaId"), "templateId"), "version"), "blockLength"))>>
@@ -253,7 +255,7 @@ GroupOps(b, li, ip, inst, g) ==
       rn == DimN(b, G.w, gli, ga)
       rbn == DimN(b, rb.w, gli, ga)
       wdim == ReqOnly(b, G.w, ga, ga + LDimSize[gli])
-      O(cls, kind, args, w, pre) == Mk(cls, kind, li, ip, name, args, <<>>, w, pre, FALSE)
+      O(cls, kind, args, w, pre) == Mk(cls, kind, li, ip, name, args, <<>>, w, pre, FALSE, ga)
   IN <<O("view-obtain", "g_addr", <<>>, G.w, TRUE),
        O("header", "g_hdr", <<>>, wdim, TRUE),
        O("header", "g_hdr_bl", <<>>, rb.w, TRUE),
@@ -291,14 +293,13 @@ DataOps(b, li, ip, inst, d) ==
       Whole(w, k) == ReqOnly(b, w, da, el + k)                  \* prefix + k elements required
       P(w) == Acc(b, w, da, lw, da, da, da + lw)                \* prefix read / written
       E(w, lo, len) == Acc(b, w, el + lo, len, da, el + lo, el + lo + len)
-      Max2(x, y) == IF x > y THEN x ELSE y
-      O(kind, args, val, w, pre, grow) == Mk("data", kind, li, ip, name, args, val, w, pre, grow)
+      O(kind, args, val, w, pre, grow) == Mk("data", kind, li, ip, name, args, val, w, pre, grow, da)
       Mut(kind, args, val, w, new) == O(kind, args, val, Whole(w, Max2(sz, new)), TRUE, new > sz)
       ks == {0, sz, sz + 1, sz + 3}
   IN IF sz >= 250 THEN <<O("d_addr", <<>>, <<>>, D.w, TRUE, FALSE), O("d_size", <<>>, <<>>, P(D.w), TRUE, FALSE)>>
      ELSE
-     <<Mk("view-obtain", "d_addr", li, ip, name, <<>>, <<>>, D.w, TRUE, FALSE),
-       Mk("size-bytes", "d_size_bytes", li, ip, name, <<>>, <<>>, P(D.w), TRUE, FALSE),
+     <<Mk("view-obtain", "d_addr", li, ip, name, <<>>, <<>>, D.w, TRUE, FALSE, da),
+       Mk("size-bytes", "d_size_bytes", li, ip, name, <<>>, <<>>, P(D.w), TRUE, FALSE, da),
        O("d_size", <<>>, <<>>, P(D.w), TRUE, FALSE),
        O("d_get", <<>>, <<>>, Whole(E(P(D.w), 0, sz), sz), TRUE, FALSE),
        O("d_data", <<>>, <<>>, Whole(D.w, sz), TRUE, FALSE),
@@ -363,9 +364,9 @@ CursorOps_(b, li, ip, inst) ==
                          ELSE ReqOnly(b, inst.w, fs, fs + sz)
                    w2 == IF isLast /\ wi \in {0, 1, 4} THEN BE(w1) ELSE w1
                    cur == IF wi \in {1, 3} THEN -1 ELSE req
-               IN <<Mk("cursor", "cget", li, ip, <<lname(k)>>, <<wi, cur>>, <<>>, w2, TRUE, FALSE)>>
+               IN <<Mk("cursor", "cget", li, ip, <<lname(k)>>, <<wi, cur>>, <<>>, w2, TRUE, FALSE, Max2(cur, inst.base))>>
                   \o (IF scalar /\ wi # 4
-                      THEN <<Mk("cursor", "cset", li, ip, <<lname(k)>>, <<wi, cur>>, PatBytes(sz), w2, TRUE, FALSE)>>
+                      THEN <<Mk("cursor", "cset", li, ip, <<lname(k)>>, <<wi, cur>>, PatBytes(sz), w2, TRUE, FALSE, Max2(cur, inst.base))>>
                       ELSE <<>>)])])
       Groups ==
         ConcatAll([g \in 1 .. NG(li) |->
@@ -388,7 +389,7 @@ CursorOps_(b, li, ip, inst) ==
                                [] wi = 3 -> RA.w
                                [] OTHER -> WGroupEnd(b, wq, gli, gs).w
                    cur == IF wi \in {1, 3} \/ g = 1 THEN -1 ELSE gs
-               IN <<Mk("cursor", "cget", li, ip, nm, <<wi, cur>>, <<>>, w, TRUE, FALSE)>>])])
+               IN <<Mk("cursor", "cget", li, ip, nm, <<wi, cur>>, <<>>, w, TRUE, FALSE, Max2(cur, inst.base))>>])])
       Datas ==
         ConcatAll([d \in 1 .. ND(li) |->
           LET RA == DataAt(b, li, inst, d)
@@ -408,7 +409,7 @@ CursorOps_(b, li, ip, inst) ==
                                [] wi = 3 -> RA.w
                                [] OTHER -> pf(wq)
                    cur == IF wi \in {1, 3} \/ firstvar THEN -1 ELSE ds
-               IN <<Mk("cursor", "cget", li, ip, nm, <<wi, cur>>, <<>>, w, TRUE, FALSE)>>])])
+               IN <<Mk("cursor", "cget", li, ip, nm, <<wi, cur>>, <<>>, w, TRUE, FALSE, Max2(cur, inst.base))>>])])
   IN IF inst.w.dead \/ inst.w.far \/ blv >= Big THEN <<>> ELSE Fields \o Groups \o Datas
 
 \* ---- everything applicable to the image b of shape s
@@ -423,7 +424,8 @@ InstOps(b, li, ip) ==
 Bound(op) ==   \* footprint summary for the per-n classification
   LET Lo(s) == IF s = <<>> THEN 0 ELSE CHOOSE x \in {s[i][1] : i \in 1 .. Len(s)} : \A j \in 1 .. Len(s) : x <= s[j][1]
       Hi(s) == IF s = <<>> THEN 0 ELSE CHOOSE x \in {s[i][2] : i \in 1 .. Len(s)} : \A j \in 1 .. Len(s) : x >= s[j][2]
-  IN [tlo |-> Lo(op.tr), thi |-> Hi(op.tr), rlo |-> Lo(op.rq), rhi |-> Hi(op.rq)]
+      BMax(s, x) == IF s = <<>> THEN x ELSE Max2(x, CHOOSE y \in {s[i][3] : i \in 1 .. Len(s)} : \A j \in 1 .. Len(s) : y >= s[j][3])
+  IN [tlo |-> Lo(op.tr), thi |-> Hi(op.tr), rlo |-> Lo(op.rq), rhi |-> Hi(op.rq), bmax |-> BMax(op.tr, op.recv)]
 
 OpTable(b, s) ==
   LET insts == Instances(MI, s)
@@ -481,7 +483,7 @@ KInit ==
                    /\ ctab = t
                    /\ n \in (IF AllN /\ j = 0 THEN 0 .. Full(sh) ELSE SampleNs(t, Full(sh)))
 
-KNext == UNCHANGED kvars
+KNext == FALSE /\ UNCHANGED kvars     \* the states are the initial ones: (image, n)
 KSpec == KInit /\ [][KNext]_kvars
 
 ----------------------------------------------------------------------------
@@ -491,16 +493,11 @@ TouchIn(i) == ctab.ops[i].tr = <<>> \/ (ctab.bnd[i].tlo >= V0 /\ ctab.bnd[i].thi
 ReqIn(i) == ctab.ops[i].rq = <<>> \/ (ctab.bnd[i].rlo >= V0 /\ ctab.bnd[i].rhi <= VEnd)
 MustAssert(i) == ~TouchIn(i)
 MustOk(i) == ReqIn(i) /\ ctab.ops[i].pre
-\* base of the first touch (program order) that is not inside the view
-FirstOobBase(i) ==
-  LET tr == ctab.ops[i].tr
-      f == CHOOSE x \in 1 .. Len(tr) : (tr[x][1] < V0 \/ tr[x][2] > VEnd)
-                                        /\ \A j \in 1 .. x - 1 : tr[j][1] >= V0 /\ tr[j][2] <= VEnd
-  IN tr[f][3]
-\* 0 must_assert (receiver inside), 3 must_assert (receiver view / cursor starts
-\* beyond the end of the view: DESIGN 6 #11), 1 must_ok, 2 either
-Outcome(i) == IF MustAssert(i) THEN (IF FirstOobBase(i) > VEnd THEN 3 ELSE 0)
-              ELSE IF MustOk(i) THEN 1 ELSE 2
+\* some view of the call chain (a receiver, or the cursor) starts beyond the end
+\* of the message view: the situation of DESIGN.md 6 #11 / Appendix B last paragraph
+BeyondEnd(i) == ctab.bnd[i].bmax > VEnd
+\* 0 must_assert, 1 must_ok, 2 either; +3 when BeyondEnd
+Outcome(i) == (IF MustAssert(i) THEN 0 ELSE IF MustOk(i) THEN 1 ELSE 2) + (IF BeyondEnd(i) THEN 3 ELSE 0)
 
 ----------------------------------------------------------------------------
 (* Sanity of the relation (model-checked) *)
@@ -518,7 +515,7 @@ Disjoint == \A i \in 1 .. NOps : ~(MustAssert(i) /\ MustOk(i))
 \* enlarge the message passes (ties the relation to the decode replay)
 FullViewOk ==
   (hvi = 0 /\ n = Full(sh)) =>
-     \A i \in 1 .. NOps : (ctab.ops[i].pre /\ ~ctab.ops[i].grow) => Outcome(i) = 1
+     \A i \in 1 .. NOps : (ctab.ops[i].pre /\ ~ctab.ops[i].grow) => MustOk(i) /\ ~BeyondEnd(i)
 \* on the pristine image the walks find what the denotation says
 WalkAgrees ==
   (hvi = 0 /\ n = 0) =>
@@ -539,7 +536,7 @@ WalkAgrees ==
         /\ LET r == RootBL(buf, W0)
            IN WLevelEnd(buf, r.w, 1, V0 + HSize, r.v).e = V0 + Full(sh)
 KTypeOK == /\ n \in 0 .. Full(sh)
-           /\ \A i \in 1 .. NOps : Outcome(i) \in 0 .. 3
+           /\ \A i \in 1 .. NOps : Outcome(i) \in 0 .. 5
 
 ----------------------------------------------------------------------------
 (* Emission: the image with its operation table once (n = 0), the outcomes *)
